@@ -430,6 +430,9 @@ func (b *bb) scenarioPrio1() {
 	if b.cycle("prio1-graceful-held", 2) == 1 {
 		b.gracefulHeldStop()
 	}
+	if b.cycle("prio1-stop-full-output", 2) == 0 {
+		b.stopFullOutput()
+	}
 	before := b.fails()
 	c := b.randPrioCfg()
 	mode := []string{"graceful", "stop", "cancel", "stop-busy", "graceful+stop", "graceful+cancel", "stop-noread"}[b.cycle("prio1", 7)]
@@ -1555,6 +1558,69 @@ func (b *bb) gracefulHeldStop() {
 	}
 	b.leakProbe("Stop during the last wait of a graceful termination of v1 priority")
 	b.note("prio1", "graceful-held "+desc, before)
+}
+
+// C16 with the smallest output channels: HandlersQuantity handlers, an output of capacity
+// HandlersQuantity-1 (one handler: unbuffered), a consumer that does not read, inputs holding more
+// than HandlersQuantity items.  The discipline fills the output and blocks in its next write;
+// Stop() / cancellation must end that write.
+func (b *bb) stopFullOutput() {
+	before := b.fails()
+	H := []uint{1, 2, 4, 3}[b.cycle("stop-full-output-h", 4)]
+	byCtx := b.cycle("stop-full-output-ctx", 2) == 1
+	in := make(chan int, int(H)+3)
+	for i := 0; i < int(H)+3; i++ {
+		in <- 100000 + i
+	}
+	output := make(chan p1.Prioritized[int], int(H)-1)
+	feedback := make(chan uint, 1)
+	ctx, cancel := context.WithCancel(context.Background())
+	defer cancel()
+	desc := fmt.Sprintf("v1 priority, H=%d, cap(Output)=%d, %d items waiting, nobody reads the output, then %s", H, H-1, H+3, map[bool]string{true: "the context is cancelled", false: "Stop() is called"}[byCtx])
+	dsc, err := p1.New(p1.Opts[int]{Ctx: ctx, Divider: p1.FairDivider, Feedback: feedback, HandlersQuantity: H, Inputs: map[uint]<-chan int{1: in}, Output: output})
+	if err != nil {
+		b.fail("C16 v1 New failed: %v", err)
+		return
+	}
+	time.Sleep(20 * time.Millisecond) // the output is full, the discipline is inside a write
+	ret := make(chan struct{})
+	go func() {
+		if byCtx {
+			cancel()
+		}
+		dsc.Stop()
+		close(ret)
+	}()
+	select {
+	case <-ret:
+	case <-time.After(5 * time.Second):
+		b.fail("C16 full output: Stop() did not return within 5s (%s)", desc)
+		// let the discipline go, so that the run can continue
+		go func() {
+			for range output {
+			}
+		}()
+		select {
+		case <-ret:
+		case <-time.After(5 * time.Second):
+		}
+	}
+	select {
+	case _, open := <-dsc.Err():
+		if open {
+			select {
+			case _, open = <-dsc.Err():
+			case <-time.After(5 * time.Second):
+			}
+		}
+		if open {
+			b.fail("C16 full output: Err() was not closed within 5s after Stop()/cancellation (%s)", desc)
+		}
+	case <-time.After(5 * time.Second):
+		b.fail("C16 full output: Err() was not closed within 5s after Stop()/cancellation (%s)", desc)
+	}
+	b.leakProbe("Stop of v1 priority blocked on a full output")
+	b.note("prio1", "stop-full-output "+desc, before)
 }
 
 // Known finding F1 seen from C07 (v1 only: v2's constructor rejects the configuration): priorities
